@@ -363,7 +363,7 @@ theorem slashClass_mem (c : Char) : slashClass.mem c = true ↔ c = '/' := by
 /-- ASCII letters and digits, nothing else -/
 theorem alnumClass_mem (c : Char) :
     alnumClass.mem c = true ↔ (isAsciiDigit c = true ∨ isAsciiAlpha c = true) := by
-  have e : ∀ a b : Char, a ≤ b ↔ a.toNat ≤ b.toNat := fun a b => char_le_iff a b
+  have e : ∀ a b : Char, a ≤ b ↔ a.toNat ≤ b.toNat := fun a b => Py.char_le_iff a b
   simp only [alnumClass, CharClass.mem, CharClass.inRanges, List.any_cons, List.any_nil,
     Bool.or_false, Bool.false_bne, Bool.and_eq_true, Bool.or_eq_true, decide_eq_true_eq,
     isAsciiDigit, isAsciiAlpha, e]
